@@ -109,7 +109,7 @@ type Delivered struct {
 // Result is what one executed operation looked like from outside (for the monitors).
 type Result struct {
 	// an operation that reported success although (part of) its effect is missing from the tables
-	Lost string
+	Lost                      string
 	Op                        Op
 	T                         int64 // clock before
 	TAfter                    int64
